@@ -352,6 +352,54 @@ def install(reg):
         return VInt(z3.Length(t))
     M[("HFile", "write")] = f_write
 
+    def f_readinto(p, recv, args, kw):
+        """BufferedReader.readinto on a regular file: short only at EOF.  n = min(len(buf), len(content) - pos); the first n bytes
+        of buf become content[pos:pos+n], the rest is unchanged; pos += n."""
+        h = p.heap[recv.rid]
+        if h.closed:
+            p.raise_("ValueError")
+        bref = args[0]
+        b = p.deref(bref)
+        if not isinstance(b, HBytes):
+            raise Unsupported("readinto into a non-bytearray")
+        p.engine.assumption("readinto on a regular file returns min(len(buf), remaining) bytes (short only at end of file)")
+        blen = z3.Length(b.t)
+        avail = z3.Length(h.tail)
+        n = p.fresh("nread", I)
+        p.assume(n == z3.If(blen <= avail, blen, avail))
+        data = p.fresh("read_data", BYTES)
+        tail2 = p.fresh("tail", BYTES)
+        # word equation instead of extract terms:  tail == data ++ tail'
+        p.assume(h.tail == z3.Concat(data, tail2))
+        p.assume(z3.Length(data) == n)
+        p.assume(z3.Implies(n == 0, z3.And(data == z3.Empty(BYTES), tail2 == h.tail)))
+        p.assume(z3.Implies(n == avail, tail2 == z3.Empty(BYTES)))
+        # the buffer: first n bytes replaced
+        zt = p.ghost.get("zeros_terms", [])
+        zlen = None
+        for zterm, zn in zt:
+            if zterm.eq(b.t):
+                zlen = zn
+        bs = z3.simplify(b.t)
+        newbuf = p.fresh("buf", BYTES)
+        if zlen is not None:
+            suffix = p.engine.zeros(p, z3.simplify(zlen - n))
+        elif z3.is_app(bs) and bs.decl().kind() in (z3.Z3_OP_SEQ_UNIT, z3.Z3_OP_SEQ_CONCAT, z3.Z3_OP_SEQ_EMPTY) and all(
+                z3.is_int_value(z3.simplify(bs.arg(k).arg(0))) and z3.simplify(bs.arg(k).arg(0)).as_long() == 0
+                for k in range(bs.num_args()) if bs.decl().kind() == z3.Z3_OP_SEQ_CONCAT):
+            suffix = z3.SubSeq(b.t, n, blen - n)
+        else:
+            suffix = z3.SubSeq(b.t, n, blen - n)
+        p.assume(newbuf == z3.Concat(data, suffix))
+        p.assume(z3.Length(newbuf) == blen)
+        p.assume(z3.Implies(n == blen, newbuf == data))
+        p.ghost.setdefault("known_slices", []).append((newbuf, n, data))
+        b.t = newbuf
+        h.tail = tail2
+        h.pos = z3.simplify(h.pos + n)
+        return VInt(n)
+    M[("HFile", "readinto")] = f_readinto
+
     def f_close(p, recv, args, kw):
         p.close_file(p.heap[recv.rid])
         return VNone()
@@ -446,6 +494,63 @@ def install(reg):
         f = p.engine.uf("path_parts", S, PVSEQ)
         return VStr(PV.sval(f(str_term(p, path))[0]))
     SF["first_part"] = s_first_part
+
+    def s_file_tail(p, f):
+        """unread bytes of an open file handle"""
+        h = p.deref(f)
+        if not isinstance(h, HFile):
+            raise Unsupported("file handle expected")
+        return VBytes(h.tail)
+    SF["file_tail"] = s_file_tail
+
+    def s_file_wf(p, f, path):
+        """an open read handle on the regular file `path`"""
+        h = p.deref(f)
+        fs = fs_of(p)
+        t = str_term(p, path)
+        return VBool(z3.And(kind_at(p, fs.kind, t) == FILE, h.path == t, z3.BoolVal(not h.closed)))
+    SF["file_wf"] = s_file_wf
+
+    def s_file_same(p, f, g):
+        a, b = p.deref(f), p.deref(g)
+        return VBool(z3.And(a.tail == b.tail, a.path == b.path, z3.BoolVal(a.closed == b.closed)))
+    SF["file_same"] = s_file_same
+
+    def s_hint(p, *args):
+        """evaluating the arguments instantiates the ground lemmas attached to the terms they build; the value is True"""
+        return VBool(True)
+    SF["hint"] = s_hint
+
+    def s_file_at_eof(p, f):
+        h = p.deref(f)
+        return VBool(h.tail == z3.Empty(BYTES))
+    SF["file_at_eof"] = s_file_at_eof
+
+    def s_rest(p, paths, i):
+        """concatenation of the contents of paths[i:] (prefix-sum style spec function with ground unfolding at i)"""
+        fs = fs_of(p)
+        h = p.deref(paths)
+        X = p.list_seq(h)
+        it = p.as_int(i)
+        f = p.engine.uf("rest", PVSEQ, DATA_SORT, I, BYTES)
+        t = f(X, fs.data, it)
+        key = ("rest", X.get_id(), fs.data.get_id(), z3.simplify(it).sexpr())
+        if key not in p.ghost:
+            p.ghost[key] = True
+            p.assume(z3.Implies(it >= z3.Length(X), t == z3.Empty(BYTES)))
+            p.assume(z3.Implies(z3.And(it >= 0, it < z3.Length(X)),
+                                t == z3.Concat(z3.Select(fs.data, PV.sval(X[it])), f(X, fs.data, it + 1))))
+        return VBytes(t)
+    SF["rest"] = s_rest
+
+    def s_path_is_file(p, paths, i):
+        fs = fs_of(p)
+        h = p.deref(paths)
+        X = p.list_seq(h)
+        it = p.as_int(i)
+        return VBool(z3.Implies(z3.And(it >= 0, it < z3.Length(X)),
+                                z3.And(PV.is_PStr(X[it]), kind_at(p, fs.kind, PV.sval(X[it])) == FILE)))
+    SF["path_is_file"] = s_path_is_file
 
     def s_fs_size0(p, path):
         fs = fs_of(p)
